@@ -278,20 +278,23 @@ Theorem C09_reject_major_unit_refuted :
 Proof. exact major_unit_reject_refuted. Qed.
 Print Assumptions C09_reject_major_unit_refuted.
 
-Theorem C09_reject_marker_size_refuted :
-  let e := entry_named "Marker.size" in
-  eval (e_get e) [] = Ok PNone
-  /\ snd (run (e_set e) (plain (PInt 1)) []) = Err ValueErr
-  /\ eval (e_get e) (fst (run (e_set e) (plain (PInt 1)) [])) = Err OtherErr.
-Proof. exact marker_size_reject_refuted. Qed.
-Print Assumptions C09_reject_marker_size_refuted.
-
 (** validation before mutation (the current code): a refused value changes nothing *)
 Theorem C09_reject_font_name_unchanged :
   let e := entry_named "Font.name" in
   eval (e_get e) [] = Ok PNone /\ run (e_set e) (plain (PInt 5)) [] = ([], Err TypeErr).
 Proof. exact font_name_reject_unchanged. Qed.
 Print Assumptions C09_reject_font_name_unchanged.
+
+Example C09_reject_marker_size_unchanged :
+  let e := entry_named "Marker.size" in
+  eval (e_get e) [] = Ok PNone /\ run (e_set e) (plain (PInt 1)) [] = ([], Err ValueErr).
+Proof. exact marker_size_reject_unchanged. Qed.
+
+Example C09_reject_placeholder_unchanged :
+  let l := entry_named "_InheritsDimensions.left@sp" in
+  run (e_set l) (plain (PInt (-27273042329601))) w_placeholder = (w_placeholder, Err ValueErr)
+  /\ run (e_set l) (plain (PStr (s2l "abc"))) w_placeholder = (w_placeholder, Err TypeErr).
+Proof. exact placeholder_reject_unchanged. Qed.
 
 Theorem C09_reject_theme_color_unchanged :
   let e := entry_named "ColorFormat.theme_color" in
@@ -334,7 +337,7 @@ Example C09_ex_font_size :
   /\ ap_quant font_size_prop (plain (PStr (s2l "x"))) = Err ValueErr.
 Proof. exact ex_font_size. Qed.
 
-(** LAST (fails until every such finding is fixed or recorded): no catalogue property has a refused
+(** LAST (fails when a finding of this class appears that is neither fixed nor recorded): no catalogue property has a refused
     assignment after which its own getter raises, except the recorded findings.  (That a refusal may
     leave an empty element behind, or drop the old explicit value of the SAME property, is not part of
     the property's statement: Diag_C09 lists those setters, C09_reject_attr_residue and
